@@ -83,6 +83,7 @@ func facts() map[string]any {
 		"max_denial_proof_ns":   int64(cache.VerifC04MaxDenialProofTTL()),
 		"cut_max_ttl_expire600": int64(cache.VerifC04CutMaxTTL(c)),
 		"hist_cut_max_ns":       histCutMax(),
+		"hist_proof_max_ns":     histProofMax(),
 	}
 }
 
@@ -92,6 +93,12 @@ func histCutMax() int64 {
 	c := cache.New(&config.Config{CacheSize: 1024, Expire: histExpire})
 	defer c.Stop()
 	return int64(cache.VerifC04CutMaxTTL(c))
+}
+
+func histProofMax() int64 {
+	c := cache.New(&config.Config{CacheSize: 1024, Expire: histExpire})
+	defer c.Stop()
+	return int64(cache.VerifC04ProofMaxTTL(c))
 }
 
 func main() { vlib.Main(&vlib.Driver{Facts: facts, Exec: exec, Gen: gen}) }
